@@ -1222,23 +1222,35 @@ static void union_initializer(Token **rest, Token *tok, Initializer *init) {
   // Unlike structs, union initializers take only one initializer,
   // and that initializes the first union member by default.
   // You can initialize other member using a designated initializer.
-  if (equal(tok, "{") && equal(tok->next, ".")) {
-    Member *mem = struct_designator(&tok, tok->next, init->ty);
-    init->mem = mem;
-    designation(&tok, tok, init->children[mem->idx]);
-    *rest = skip(tok, "}");
+  if (equal(tok, "{")) {
+    // A non-designated initializer at the head of the list is for the
+    // first named member. The list may also designate members, more
+    // than once; the last designated member is the one that is
+    // initialized.
+    tok = tok->next;
+    bool first = true;
+
+    while (!consume_end(rest, tok)) {
+      if (!first)
+        tok = skip(tok, ",");
+
+      if (equal(tok, ".")) {
+        Member *mem = struct_designator(&tok, tok, init->ty);
+        init->mem = mem;
+        designation(&tok, tok, init->children[mem->idx]);
+      } else if (first) {
+        init->mem = skip_unnamed_bitfields(init->ty->members);
+        initializer2(&tok, tok, init->children[init->mem->idx]);
+      } else {
+        tok = skip_excess_element(tok);
+      }
+      first = false;
+    }
     return;
   }
 
   init->mem = skip_unnamed_bitfields(init->ty->members);
-
-  if (equal(tok, "{")) {
-    initializer2(&tok, tok->next, init->children[init->mem->idx]);
-    consume(&tok, tok, ",");
-    *rest = skip(tok, "}");
-  } else {
-    initializer2(rest, tok, init->children[init->mem->idx]);
-  }
+  initializer2(rest, tok, init->children[init->mem->idx]);
 }
 
 // initializer = string-initializer | array-initializer
